@@ -718,6 +718,9 @@ func ConvertToObjectSchema(typeOrData any) (Object, bool) {
 		return i.GetObject(), true
 	case *ScopeSchema:
 		return i.RootObject(), true
+	case Scope:
+		// Other scope implementations, like TypedScopeSchema.
+		return i.RootObject(), true
 	}
 	// Try extracting the inlined ObjectSchema for types that have an ObjectSchema, like TypedObjectSchema.
 	value := reflect.ValueOf(typeOrData)
